@@ -674,13 +674,11 @@ fn serialize_request(request: &RequestHeaders) -> io::Result<(Bytes, BodyLength)
         format!(
             "{} {} HTTP/{}.{}\r\n",
             request.method.as_str(),
-            if request.method != http::Method::OPTIONS {
-                request
-                    .uri
-                    .path_and_query()
-                    .map_or(request.uri.path(), |x| x.as_str())
-            } else {
-                "*"
+            match request.uri.path_and_query() {
+                Some(x) => x.as_str(),
+                // an OPTIONS request for the server as a whole (RFC 9112 3.2.4)
+                None if request.method == http::Method::OPTIONS => "*",
+                None => request.uri.path(),
             },
             version_major_digit(request.version),
             version_minor_digit(request.version),
